@@ -15,6 +15,7 @@ var Properties = map[string]PropDef{
 			{Name: "types.ZZC17Orders"},
 			{Name: "types.ZZC17Spellings"},
 			{Name: "types.ZZC17Names"},
+			{Name: "types.ZZC17Documented"},
 		},
 	},
 	"C08": {
@@ -247,7 +248,7 @@ func runMenuHeavyHarness() HarnessDef {
 func runMenuMonitorHarness() HarnessDef {
 	h := runMenuHarness()
 	h.Quick = map[string]int{"MODES": 3, "MONITOR": 1, "LIGHT": 1}
-	h.Thorough = map[string]int{"LIGHT": 0, "DEEP": 1}
+	h.Thorough = map[string]int{"LIGHT": 1} // (with a monitor the heavy programs take hours)
 	h.Note = "monitor attached; the order in which updates of different processes reach the monitor is treated as irrelevant"
 	return h
 }
